@@ -129,6 +129,10 @@ CORPUS = [
     'SELECT a FROM (SELECT s AS a, t AS b, i FROM #t) ORDER BY b DESC, i',
     'SELECT a, count(*) AS n FROM (SELECT s AS a, t AS b FROM #t) GROUP BY a, b ORDER BY a, n',
     'SELECT * FROM (SELECT t, s FROM (SELECT s, t, i FROM #t WHERE i > 1))',
+    # membership across the numeric types, as with a literal list
+    'SELECT i, i IN (SELECT i * 1.0 FROM #u) AS m, i * 1.0 IN (SELECT i FROM #u) AS n FROM #t',
+    'SELECT i FROM #t WHERE i * 1.0 NOT IN (SELECT i FROM #u WHERE i > 2)',
+    'SELECT i FROM #t WHERE i IN (SELECT i / 1 FROM #u)',
     # inner outputs named by their expression text
     'SELECT * FROM (SELECT s, i + 1, length(s) FROM #t)',
     'SELECT * FROM (SELECT count(*), sum(i) FROM #t)',
